@@ -112,6 +112,9 @@ def ops_for(n, cap, cls_name, tier):
     if cls_name in FOCUS_TRACKING:
         for i in range(-1, n + 1):
             out.append(("focus", i))
+        if cls_name == "SimpleFocusListWalker":
+            for i in range(n):
+                out.append(("set_focus", i))  # the entry point ListBox uses
     elif cls_name == "SimpleListWalker":
         for i in range(-1, n + 1):
             out.append(("set_focus", i))
@@ -247,6 +250,8 @@ class Spec:
                 if valid:
                     if err is not None or impl.focus != i:
                         V("focus-assign", f"set_focus({i}) -> err={err!r} focus={impl.focus!r}")
+                    elif tracking and st.fch != ([i] if i != f0 else []):
+                        V("focus-callback", f"set_focus({i}) from focus {f0}: focus-changed callback calls {st.fch}")
                 elif not isinstance(err, IndexError) or impl.focus != f0:
                     V("bad-focus-assign", f"set_focus({i}) invalid -> err={err!r} focus={impl.focus!r}")
             ctx.obs(op, repr(err), impl.focus)
@@ -367,10 +372,110 @@ def accepted_after_removal(before, f0, after, op):
     return acc
 
 
+def extras_task(task, ctx: Ctx):
+    """beyond the length cap: (1) long lists with a high focus index - every in-place operation before, at and after the focus; (2) two lists whose
+    modified callbacks change each other with the same mutator (each call still reports exactly once)"""
+    (kind,) = task
+    from urwid.widget.monitored_list import MonitoredFocusList, MonitoredList
+
+    if kind == "long":
+        for cls in (MonitoredFocusList, urwid.SimpleFocusListWalker):
+            for n, f in ((300, 280), (300, 257), (1200, 1100)):
+                for op in ("set0", "slice0", "set_after", "set_at", "insert0", "del0", "append", "pop_last", "insert_after"):
+                    ctx.count("evaluations")
+                    items = [Tok(i) for i in range(n)]
+                    ml = cls(items)
+                    ml.focus = f
+                    fch, mods = [], []
+                    if cls is MonitoredFocusList:
+                        ml.set_focus_changed_callback(fch.append)
+                        ml.set_modified_callback(lambda: mods.append(1))
+                    else:
+                        ml.set_focus_changed_callback(fch.append)
+                        urwid.connect_signal(ml, "modified", lambda: mods.append(1))
+                    fitem = items[f]
+                    new = [Tok(10**5 + j) for j in range(2)]
+                    try:
+                        if op == "set0":
+                            ml[0] = new[0]
+                        elif op == "slice0":
+                            ml[0:2] = new
+                        elif op == "set_after":
+                            ml[f + 1] = new[0]
+                        elif op == "set_at":
+                            ml[f] = new[0]
+                            fitem = new[0]
+                        elif op == "insert0":
+                            ml.insert(0, new[0])
+                        elif op == "del0":
+                            del ml[0]
+                        elif op == "append":
+                            ml.append(new[0])
+                        elif op == "pop_last":
+                            ml.pop()
+                        elif op == "insert_after":
+                            ml.insert(f + 1, new[0])
+                    except Exception as e:
+                        ctx.violation("same-errors", f"C16/long/{cls.__name__}/{op}/{exc_site(e)}", {"extras": kind, "cls": cls.__name__, "n": n, "focus": f, "op": op}, repr(e))
+                        continue
+                    want_f = {"insert0": f + 1, "del0": f - 1}.get(op, f)
+                    case = {"extras": kind, "cls": cls.__name__, "n": n, "focus": f, "op": op}
+                    if ml.focus != want_f or ml[ml.focus] is not fitem:
+                        ctx.violation("focus-follows-item", f"C16/long/{cls.__name__}/{op}/focus", case, f"list of {n}, focus {f}, {op}: focus is {ml.focus}, expected {want_f} on the same item")
+                    if fch != ([want_f] if want_f != f else []):
+                        ctx.violation("focus-callback", f"C16/long/{cls.__name__}/{op}/focus-callback", case, f"list of {n}, focus {f} -> {want_f} after {op}: focus-changed callback calls {fch}")
+                    if len(mods) != 1:
+                        ctx.violation("modified-once", f"C16/long/{cls.__name__}/{op}/modified", case, f"{op}: modified reported {len(mods)} times")
+                    ctx.distinct("nontrivial", ("long", cls.__name__, n, f, op))
+    else:
+        muts = {
+            "append": lambda l, x: l.append(x),
+            "setitem": lambda l, x: l.__setitem__(0, x),
+            "insert": lambda l, x: l.insert(0, x),
+            "extend": lambda l, x: l.extend([x]),
+            "delitem": lambda l, x: l.__delitem__(0),
+            "iadd": lambda l, x: l.__iadd__([x]),
+        }
+        for cls in (MonitoredList, MonitoredFocusList, urwid.SimpleListWalker, urwid.SimpleFocusListWalker):
+            for outer in muts:
+                for inner in muts:
+                    ctx.count("evaluations")
+                    a = cls([Tok(1), Tok(2)])
+                    b = cls([Tok(3), Tok(4)])
+                    got = {"a": 0, "b": 0}
+                    done = []
+
+                    def on_a():
+                        got["a"] += 1
+                        if not done:
+                            done.append(1)
+                            muts[inner](b, Tok(99))  # a's listener changes b while a's mutator is still running
+
+                    def on_b():
+                        got["b"] += 1
+
+                    if cls in (MonitoredList, MonitoredFocusList):
+                        a.set_modified_callback(on_a)
+                        b.set_modified_callback(on_b)
+                    else:
+                        urwid.connect_signal(a, "modified", on_a)
+                        urwid.connect_signal(b, "modified", on_b)
+                    try:
+                        muts[outer](a, Tok(98))
+                    except Exception as e:
+                        ctx.violation("same-errors", f"C16/reentrant/{cls.__name__}/{exc_site(e)}", {"extras": kind, "cls": cls.__name__, "outer": outer, "inner": inner}, repr(e))
+                        continue
+                    if got != {"a": 1, "b": 1}:
+                        ctx.violation("modified-once", f"C16/reentrant/{cls.__name__}/{'same' if outer == inner else 'other'}-mutator", {"extras": kind, "cls": cls.__name__, "outer": outer, "inner": inner},
+                                      f"{outer} on list a whose listener does {inner} on list b: modified reported {got['a']}x for a and {got['b']}x for b, expected once each")
+                    ctx.distinct("nontrivial", ("reentrant", cls.__name__, outer, inner))
+
+
 def run(tier, R):
     cap = 4 if tier == "quick" else 6
     spec = Spec(cap)
     res = R.bfs(spec, depth=64, chunk=0)
+    R.run_tasks(extras_task, [("long",), ("reentrant",)], recheck=0.0)
     cov = {
         "states": res["states"],
         "transitions": res["transitions"],
@@ -380,7 +485,8 @@ def run(tier, R):
         "rule": "BFS to a fixed point over (class, rank-compressed contents, focus) with list length <= "
         f"{cap}; every op of the alphabet (index/slice get-set-del with start,stop in None|-(n+1)..n+1, step in "
         "None,1,2,3,-1,-2, replacement lengths 0..2, insert/append/extend/pop/remove/reverse/sort (plain, reversed, with a key, with a key function that raises)/+=/*=/clear, "
-        "focus assignment valid+invalid) applied in every state; non-trivial = distinct (state, op) pairs that "
+        "focus assignment valid+invalid, SimpleFocusListWalker.set_focus) applied in every state; plus lists of 300 / 1200 items with a focus index above 256 "
+        "(in-place operations before, at and after the focus) and pairs of lists whose modified listeners change the other list with every pair of mutators; non-trivial = distinct (state, op) pairs that "
         "changed the contents",
         "exhaustive": bool(res["closed"]),
         "bfs_levels": res["levels"],
@@ -397,6 +503,9 @@ def run(tier, R):
 
 
 def replay(case, ctx):
+    if "extras" in case:
+        extras_task((case["extras"],), ctx)
+        return
     cfg = case["cls"]
     hist = tuple(tuple(op) for op in case["hist"])
     cap = 6
